@@ -37,6 +37,7 @@ func main() {
 	debugLocks := flag.String("debug-locks", "", "print lockset call sites of the named function and exit")
 	list := flag.Bool("list", false, "print the registered properties with their meta data as JSON and exit")
 	selftest := flag.Bool("selftest", false, "run the checker on its seeded-fault fixtures")
+	dumpTypes := flag.Bool("dump-types", false, "print the JSON list of the repository's named types (reference list for the scalar-replacement pass of the helper-inlined view) and exit")
 	dumpFns := flag.Bool("dump-functions", false, "print the JSON list of the repository's functions (reference list for the helper-inlined view) and exit")
 	flag.Parse()
 
@@ -83,6 +84,16 @@ func main() {
 	}
 	if *selftest {
 		os.Exit(runSelfTest(*verif))
+	}
+	if *dumpTypes {
+		l, err := dumpTypeNames(*repo)
+		if err != nil {
+			fmt.Fprintln(os.Stderr, err)
+			os.Exit(2)
+		}
+		b, _ := json.MarshalIndent(l, "", " ")
+		fmt.Println(string(b))
+		os.Exit(0)
 	}
 	if *dumpFns {
 		l, err := dumpFunctions(*repo)
@@ -163,6 +174,15 @@ func (fb *fallback) get() *Prog {
 		fb.err = err
 		return nil
 	}
+	if b, errT := os.ReadFile(filepath.Join(fb.verif, "checker", "expect_types.json")); errT == nil {
+		var l []string
+		if json.Unmarshal(b, &l) == nil {
+			knownTypesRef = map[string]bool{}
+			for _, n := range l {
+				knownTypesRef[n] = true
+			}
+		}
+	}
 	overlay, steps, err := buildInlinedOverlay(fb.repo, knownFns, 40)
 	if err != nil {
 		fb.err = err
@@ -234,6 +254,9 @@ func loadKnownFunctions(path string) (map[string]bool, error) {
 	if theProg != nil {
 		for newKey := range theProg.renamedFrom {
 			m[newKey] = true
+		}
+		for k := range theProg.looseAnchors {
+			m[k] = true
 		}
 	}
 	return m, nil
